@@ -11,7 +11,7 @@
      c_std_typename                  search_standard_typename    src/c/parse_c_type.c:487
      c_prim_int                      _cffi_prim_int              src/cffi/_cffi_include.h:372
    The functions below interpret that data exactly as the C code does. *)
-From Coq Require Import ZArith NArith List Bool String Ascii.
+From Coq Require Import Ascii String ZArith NArith List Bool.
 Import ListNotations.
 Open Scope Z_scope.
 
@@ -147,6 +147,9 @@ Definition intn_name (size : Z) (sign : bool) : cstr :=
   (if sign then [] else s2l "u") ++ s2l "int" ++ dec2 (8 * size) ++ s2l "_t".
 
 (* ---- helpers for the finite-domain theorems *)
+Definition opt_z_eqb (a b : option Z) : bool :=
+  match a, b with Some x, Some y => x =? y | None, None => true | _, _ => false end.
+
 Fixpoint nodupb (l : list cstr) : bool :=
   match l with
   | [] => true
